@@ -1,3 +1,50 @@
-(* C14, HLL part -- statements only (being built). *)
-From DS Require Import Base.Prelude Model.Hll Model.HllCodec.
+(* C14, HLL part -- malformed bytes: HllSketch::deserialize returns Ok or Err, never panics, and
+   what it returns as Ok is well formed.  Statements only; proofs in Proofs/HllCodecProofs.v.
+   [hll_deserialize] (Model/HllCodec.v) mirrors the REPAIRED reader (/repo fix: commits efc0a54,
+   5fdcb41, 24bc284, 2b49a48, 56e3cfb, 3700a36) field by field with [Stuck] at every panic site it can
+   reach: `1 << lg_arr`, HashSet::update's "HashSet full", AuxMap's three unreachable!()s, the
+   expect()s of Array4. *)
+From DS Require Import Base.Prelude Model.Hll Model.HllCodec Proofs.HllBase Proofs.HllSet Proofs.HllAux Proofs.HllArray4
+  Proofs.HllCodecProofs.
 Open Scope N_scope.
+
+(* for EVERY byte string (any list of numbers, even non-bytes): Ok or Err, never a panic site *)
+Theorem c14_hll_deserialize_total : forall bs, hll_deserialize bs <> Stuck.
+Proof. exact hll_deserialize_total. Qed.
+
+(* a value returned as Ok is well formed ([image_wf]): lg_k in 4..21;
+   list: 8 slots, fewer than 8 coupons (so the next update is never dropped: defect D1);
+   set: lg_k >= 8, 5 <= lg size <= lg_k - 3, the table satisfies the open-addressing invariant with
+        len = number of stored coupons and load <= 3/4 (so HashSet::update cannot hit "HashSet full");
+   Hll4: the full Array4 invariant of C02 (nibbles / aux map / cur_min / num_at_cur_min consistent,
+        every exception listed once on an AUX_TOKEN slot) for a register file <= 63 -- hence by
+        c02_array4_inv_update every further update is panic-free when some register is at cur_min;
+   Hll8: registers <= 63, num_zeros exact.
+   PARTIAL: for Hll6 only lg_k is claimed (the padding byte of the register block is not
+   constrained by the reader; it is never read by the crate); for Hll4 images in which no register
+   equals cur_min (num_at_cur_min = 0, never written by any implementation) the update theorem of C02
+   does not apply as stated; list/set coupons may carry a value field 0 (harmless no-ops in array
+   mode, outside C02's [valid]). *)
+Theorem c14_hll_ok_is_wellformed : forall bs s, BOK bs -> hll_deserialize bs = Ok s -> image_wf s.
+Proof. exact hll_deserialize_ok_wf. Qed.
+
+(* the pieces: the set reader and the aux reader never reach the unreachable!()s *)
+Theorem c14_hll_set_reader :
+  forall bs lg compact,
+  set_deserialize bs lg compact <> Stuck /\
+  forall st, set_deserialize bs lg compact = Ok st ->
+    hs_lg st = lg /\ (exists S, SetRep lg st S) /\ 4 * hs_len st <= 3 * 2 ^ lg.
+Proof. exact set_deserialize_spec. Qed.
+
+Theorem c14_hll_array4_reader :
+  forall bs cm lgk ooo a, BOK bs -> 4 <= lgk <= 21 -> a4_deserialize bs cm lgk ooo = Ok a ->
+  exists regs, Inv4 lgk regs a /\ (forall j, j < 2 ^ lgk -> regs j <= 63).
+Proof. exact a4_deserialize_ok. Qed.
+
+(* non-vacuity: a 12-byte list image with one coupon is accepted; an image announcing lg_arr 200
+   (defect D13) and a truncated one are rejected, none is stuck *)
+Example c14_hll_example :
+  (exists s, hll_deserialize [2; 1; 7; 10; 3; 8; 1; 8; 5; 0; 0; 4] = Ok s) /\
+  hll_deserialize [2; 1; 7; 10; 200; 8; 1; 8; 5; 0; 0; 4] = Err /\
+  hll_deserialize [10; 1; 7; 21; 0; 8; 0; 10] = Err.
+Proof. vm_compute. split; [eexists; reflexivity|split; reflexivity]. Qed.
